@@ -71,7 +71,7 @@ def main():
         "engines": [e for e in engines if e["serves_properties"]],
         "checks": checks,
         "not_applicable": [{"property_id": p, "reason": NA[p]} for p in sorted(NA)],
-        "notes": "See DESIGN.md. known_findings.txt lists the eight defects repaired by fix: commits in /repo (all 'fixed:' entries; no open findings).",
+        "notes": "See DESIGN.md. known_findings.txt lists the nine defects repaired by fix: commits in /repo (all 'fixed:' entries; no open findings).",
     }
     json.dump(m, open(os.path.join(HERE, "MANIFEST.json"), "w"), indent=1)
 
